@@ -1,260 +1,14 @@
 (* Proofs about the lock layer (Model/Locks.v):
-   A. goroutines whose operations respect a rank of the locks never deadlock under the
-      RWMutex semantics (writer preference included), for any number of goroutines and any
-      schedule;
+   A. (Proof/LocksSysP.v) goroutines whose operations respect a rank of the locks never deadlock
+      under the RWMutex semantics (writer preference, queued readers, anonymous wake-ups), for any
+      number of goroutines and any schedule;
    B. the skeleton checker [chk] is sound: every execution of a checked skeleton respects
       the rank, releases only what it holds, waits with nothing held and returns with
       nothing held;
    C. the two compose: goroutines that run checked entry points never deadlock. *)
 From Coq Require Import List Bool Arith Lia.
 Import ListNotations.
-From Tally Require Import Model.Locks.
-
-(* ------------------------------------------------------------------ *)
-(* A. deadlock freedom of disciplined goroutines                        *)
-(* ------------------------------------------------------------------ *)
-
-Lemma mode_eqb_eq a b : mode_eqb a b = true <-> a = b.
-Proof. destruct a, b; simpl; split; intro H; try reflexivity; try discriminate. Qed.
-
-Lemma anyother_from_spec i s k p :
-  anyother_from i s k p = true <->
-  exists j u, nth_error s j = Some u /\ i + j <> k /\ p u = true.
-Proof.
-  revert i; induction s as [|t r IH]; intro i; simpl.
-  - split; [discriminate|]. intros (j & u & H & _). destruct j; discriminate.
-  - rewrite orb_true_iff, andb_true_iff, negb_true_iff, Nat.eqb_neq, IH. split.
-    + intros [[Hn Hp] | (j & u & Hj & Hn & Hp)].
-      * exists 0, t. simpl. split; [reflexivity|]. split; [lia|exact Hp].
-      * exists (S j), u. simpl. split; [exact Hj|]. split; [lia|exact Hp].
-    + intros (j & u & Hj & Hn & Hp). destruct j as [|j]; simpl in Hj.
-      * injection Hj as <-. left. split; [lia|exact Hp].
-      * right. exists j, u. split; [exact Hj|]. split; [lia|exact Hp].
-Qed.
-
-Lemma anyother_spec s k p :
-  anyother s k p = true <-> exists j u, nth_error s j = Some u /\ j <> k /\ p u = true.
-Proof. unfold anyother. rewrite anyother_from_spec. simpl. reflexivity. Qed.
-
-Definition thinv (rk : nat -> nat) (s : sys) (t : th) : Prop :=
-  disc rk (held t) (todo t) /\
-  (forall js j u, In (GWait js) (todo t) -> In j js -> nth_error s j = Some u -> nowait (todo u)).
-Definition Inv (rk : nat -> nat) (s : sys) : Prop :=
-  forall k t, nth_error s k = Some t -> thinv rk s t.
-
-Lemma holds_any_in l t : holds_any l t = true -> exists m, In (m, l) (held t).
-Proof.
-  unfold holds_any. rewrite existsb_exists. intros ([m l'] & Hin & He). simpl in He.
-  apply Nat.eqb_eq in He. subst l'. exists m. exact Hin.
-Qed.
-Lemma holds_holds_any m l t : holds m l t = true -> holds_any l t = true.
-Proof.
-  unfold holds, holds_any. rewrite !existsb_exists. intros (x & Hin & He).
-  apply andb_true_iff in He. exists x. tauto.
-Qed.
-
-(* a goroutine holding l is either able to move or blocked on a lock of higher rank *)
-Lemma holder_progress rk s j u l :
-  Inv rk s -> nth_error s j = Some u -> holds_any l u = true ->
-  enabled s j = true \/
-  exists m' l' r', todo u = GAcq m' l' :: r' /\ rk l < rk l' /\ enabled s j = false.
-Proof.
-  intros HI Hj Hh. destruct (HI _ _ Hj) as [Hd _]. apply holds_any_in in Hh as [m Hin].
-  destruct (todo u) as [|[m' l'|m' l'|js] r'] eqn:Ht; simpl in Hd.
-  - rewrite Hd in Hin. destruct Hin.
-  - destruct Hd as [Hlt _]. destruct (enabled s j) eqn:He; [left; reflexivity|].
-    right. exists m', l', r'. split; [reflexivity|]. split; [exact (Hlt _ Hin)|reflexivity].
-  - left. unfold enabled. rewrite Hj, Ht. reflexivity.
-  - destruct Hd as [Hd _]. rewrite Hd in Hin. destruct Hin.
-Qed.
-
-(* whoever stands in the way of an acquisition of l: progress, or blocked strictly higher *)
-Lemma involved_progress rk s j u l :
-  Inv rk s -> nth_error s j = Some u -> (holds_any l u || announced l u) = true ->
-  (exists k', enabled s k' = true) \/
-  exists j' u' m' l' r', nth_error s j' = Some u' /\ todo u' = GAcq m' l' :: r' /\
-                         enabled s j' = false /\ rk l < rk l'.
-Proof.
-  intros HI Hj Hor. apply orb_true_iff in Hor as [Hh | Ha].
-  - destruct (holder_progress rk s j u l HI Hj Hh) as [He | (m' & l' & r' & Ht & Hlt & He)].
-    + left. exists j. exact He.
-    + right. exists j, u, m', l', r'. tauto.
-  - unfold announced in Ha. apply andb_true_iff in Ha as [Hann Hhd].
-    destruct (todo u) as [|[[|] l'|m' l'|js] r'] eqn:Ht; try discriminate.
-    apply Nat.eqb_eq in Hhd. subst l'.
-    destruct (enabled s j) eqn:He; [left; exists j; exact He|].
-    unfold enabled in He. rewrite Hj, Ht, Hann in He. apply negb_false_iff in He.
-    apply anyother_spec in He as (j2 & u2 & Hj2 & _ & Hh2).
-    destruct (holder_progress rk s j2 u2 l HI Hj2 Hh2) as [He2 | (m' & l' & r2 & Ht2 & Hlt & He2)].
-    + left. exists j2. exact He2.
-    + right. exists j2, u2, m', l', r2. tauto.
-Qed.
-
-Lemma blocked_acq_involved s k t m l r :
-  nth_error s k = Some t -> todo t = GAcq m l :: r -> enabled s k = false ->
-  exists j u, nth_error s j = Some u /\ (holds_any l u || announced l u) = true.
-Proof.
-  intros Hk Ht He. unfold enabled in He. rewrite Hk, Ht in He.
-  assert (Hcase : anyother s k (fun u => holds W l u || announced l u) = true \/
-                  anyother s k (fun u => holds_any l u) = true).
-  { destruct m; [left; apply negb_false_iff; exact He|].
-    destruct (ann t); [right|left]; apply negb_false_iff; exact He. }
-  destruct Hcase as [H | H]; apply anyother_spec in H as (j & u & Hj & _ & Hp); exists j, u; split; try exact Hj.
-  - apply orb_true_iff in Hp as [Hp | Hp]; apply orb_true_iff; [left; eapply holds_holds_any; exact Hp | right; exact Hp].
-  - apply orb_true_iff. left. exact Hp.
-Qed.
-
-Definition headrank (rk : nat -> nat) (t : th) : nat :=
-  match todo t with GAcq _ l :: _ => S (rk l) | _ => 0 end.
-Definition bound (rk : nat -> nat) (s : sys) : nat := fold_right Nat.max 0 (map (headrank rk) s).
-
-Lemma bound_ge rk s k t : nth_error s k = Some t -> headrank rk t <= bound rk s.
-Proof.
-  revert k; induction s as [|x r IH]; intros [|k] H; simpl in H; try discriminate.
-  - injection H as <-. unfold bound. simpl. lia.
-  - specialize (IH _ H). unfold bound in *. simpl. lia.
-Qed.
-
-Lemma blocked_chain rk s : Inv rk s ->
-  forall n k t m l r, nth_error s k = Some t -> todo t = GAcq m l :: r -> enabled s k = false ->
-  bound rk s - rk l <= n -> exists k', enabled s k' = true.
-Proof.
-  intros HI. induction n as [|n IH]; intros k t m l r Hk Ht He Hn.
-  - pose proof (bound_ge rk s k t Hk) as Hb. unfold headrank in Hb. rewrite Ht in Hb. lia.
-  - destruct (blocked_acq_involved s k t m l r Hk Ht He) as (j & u & Hj & Hinv).
-    destruct (involved_progress rk s j u l HI Hj Hinv) as [Hex | (j' & u' & m' & l' & r' & Hj' & Ht' & He' & Hlt)].
-    + exact Hex.
-    + apply (IH j' u' m' l' r' Hj' Ht' He').
-      pose proof (bound_ge rk s j' u' Hj') as Hb. unfold headrank in Hb. rewrite Ht' in Hb. lia.
-Qed.
-
-Theorem inv_no_deadlock rk s : Inv rk s ->
-  forall k t, nth_error s k = Some t -> todo t <> [] -> enabled s k = false ->
-  exists k', enabled s k' = true.
-Proof.
-  intros HI k t Hk Hne He.
-  destruct (todo t) as [|[m l|m l|js] r] eqn:Ht; [congruence| | |].
-  - eapply blocked_chain; eauto.
-  - unfold enabled in He. rewrite Hk, Ht in He. discriminate.
-  - (* blocked in Wait: one of the targets has not finished; targets never wait *)
-    pose proof He as He0. unfold enabled in He. rewrite Hk, Ht in He.
-    assert (Hex : exists j, In j js /\ finished s j = false).
-    { clear -He. induction js as [|j js IH]; simpl in He; [discriminate|].
-      apply andb_false_iff in He as [H | H].
-      - exists j. split; [left; reflexivity|exact H].
-      - destruct (IH H) as (j' & Hin & Hf). exists j'. split; [right; exact Hin|exact Hf]. }
-    destruct Hex as (j & Hin & Hf). unfold finished in Hf.
-    destruct (nth_error s j) as [u|] eqn:Hj; [|discriminate].
-    destruct (HI _ _ Hk) as [_ Hw]. rewrite Ht in Hw.
-    assert (Hnw : nowait (todo u)) by (eapply Hw; eauto; left; reflexivity).
-    destruct (todo u) as [|[m' l'|m' l'|js'] r'] eqn:Hu; [discriminate| | |].
-    + destruct (enabled s j) eqn:Hej; [exists j; exact Hej|]. eapply blocked_chain; eauto.
-    + exists j. unfold enabled. rewrite Hj, Hu. reflexivity.
-    + exfalso. apply (Hnw js'). left. reflexivity.
-Qed.
-
-(* --- the invariant is preserved by every step --- *)
-
-Lemma nth_error_upd {A} (l : list A) i j x :
-  nth_error (upd l i x) j = if Nat.eqb i j then (match nth_error l j with Some _ => Some x | None => None end) else nth_error l j.
-Proof.
-  revert i j; induction l as [|h t IH]; intros i j; simpl.
-  - destruct (Nat.eqb i j); destruct j; reflexivity.
-  - destruct i, j; simpl; try reflexivity. apply IH.
-Qed.
-
-Lemma todo_step_th t : todo (step_th t) = todo t \/ exists o, todo t = o :: todo (step_th t).
-Proof.
-  unfold step_th. destruct (todo t) as [|[[|] l|m l|js] r] eqn:Ht; simpl; auto.
-  - right. eexists. reflexivity.
-  - destruct (ann t); simpl; [right; eexists; reflexivity|left; reflexivity].
-  - right. eexists. reflexivity.
-  - right. eexists. reflexivity.
-Qed.
-
-Lemma disc_step_th rk t : disc rk (held t) (todo t) -> disc rk (held (step_th t)) (todo (step_th t)).
-Proof.
-  unfold step_th. destruct (todo t) as [|[[|] l|m l|js] r] eqn:Ht; simpl; intro H.
-  - rewrite Ht. exact H.
-  - tauto.
-  - destruct (ann t); simpl; [tauto|exact H].
-  - tauto.
-  - tauto.
-Qed.
-
-Lemma nowait_suffix tr tr' : (tr' = tr \/ exists o, tr = o :: tr') -> nowait tr -> nowait tr'.
-Proof.
-  intros [-> | (o & ->)] H; [exact H|]. intros js Hin. apply (H js). right. exact Hin.
-Qed.
-Lemma in_suffix {A} (x : A) tr tr' : (tr' = tr \/ exists o, tr = o :: tr') -> In x tr' -> In x tr.
-Proof. intros [-> | (o & ->)] H; [exact H|right; exact H]. Qed.
-
-Lemma step_thread s k j u' :
-  nth_error (step s k) j = Some u' ->
-  exists u, nth_error s j = Some u /\ (u' = u \/ u' = step_th u).
-Proof.
-  unfold step. destruct (enabled s k); [|intro H; exists u'; auto].
-  destruct (nth_error s k) as [t|] eqn:Hk; [|intro H; exists u'; auto].
-  rewrite nth_error_upd. destruct (Nat.eqb k j) eqn:E.
-  - apply Nat.eqb_eq in E. subst j. rewrite Hk. intro H. injection H as <-. exists t. auto.
-  - intro H. exists u'. auto.
-Qed.
-
-Lemma inv_step rk s k : Inv rk s -> Inv rk (step s k).
-Proof.
-  intros HI j u' Hj. destruct (step_thread s k j u' Hj) as (u & Hu & Hcase).
-  destruct (HI _ _ Hu) as [Hd Hw].
-  assert (Hsuf : todo u' = todo u \/ exists o, todo u = o :: todo u').
-  { destruct Hcase as [-> | ->]; [left; reflexivity|apply todo_step_th]. }
-  split.
-  - destruct Hcase as [-> | ->]; [exact Hd|apply disc_step_th; exact Hd].
-  - intros js i v' Hin Hi Hv'. destruct (step_thread s k i v' Hv') as (v & Hv & Hc2).
-    assert (Hnw : nowait (todo v)).
-    { eapply Hw; eauto. eapply in_suffix; eauto. }
-    eapply nowait_suffix; [|exact Hnw].
-    destruct Hc2 as [-> | ->]; [left; reflexivity|apply todo_step_th].
-Qed.
-
-Lemma inv_run rk sched : forall s, Inv rk s -> Inv rk (run s sched).
-Proof.
-  induction sched as [|k r IH]; intros s H; simpl; [exact H|]. apply IH. apply inv_step. exact H.
-Qed.
-
-Lemma inv_init rk trs :
-  (forall tr, In tr trs -> disc rk [] tr) ->
-  (forall tr js j tr', In tr trs -> In (GWait js) tr -> In j js -> nth_error trs j = Some tr' -> nowait tr') ->
-  Inv rk (init trs).
-Proof.
-  intros Hd Hw k t Hk. unfold init in Hk. rewrite nth_error_map in Hk.
-  destruct (nth_error trs k) as [tr|] eqn:Htr; [|discriminate]. injection Hk as <-.
-  pose proof (nth_error_In _ _ Htr) as Hin. split; simpl.
-  - apply Hd. exact Hin.
-  - intros js j u Hg Hj Hu. unfold init in Hu. rewrite nth_error_map in Hu.
-    destruct (nth_error trs j) as [tr'|] eqn:Htr'; [|discriminate]. injection Hu as <-. simpl.
-    eapply Hw; eauto.
-Qed.
-
-(* for any goroutines, any schedule: whenever some goroutine is blocked, another can move *)
-Theorem disciplined_no_deadlock rk trs sched :
-  (forall tr, In tr trs -> disc rk [] tr) ->
-  (forall tr js j tr', In tr trs -> In (GWait js) tr -> In j js -> nth_error trs j = Some tr' -> nowait tr') ->
-  let s := run (init trs) sched in
-  forall k t, nth_error s k = Some t -> todo t <> [] -> enabled s k = false ->
-  exists k', enabled s k' = true.
-Proof.
-  intros Hd Hw s. apply inv_no_deadlock with (rk := rk). apply inv_run. apply inv_init; assumption.
-Qed.
-
-(* a goroutine that has nothing left to do holds nothing *)
-Theorem finished_holds_nothing rk trs sched :
-  (forall tr, In tr trs -> disc rk [] tr) ->
-  (forall tr js j tr', In tr trs -> In (GWait js) tr -> In j js -> nth_error trs j = Some tr' -> nowait tr') ->
-  forall k t, nth_error (run (init trs) sched) k = Some t -> todo t = [] -> held t = [].
-Proof.
-  intros Hd Hw k t Hk Ht.
-  assert (HI : Inv rk (run (init trs) sched)) by (apply inv_run; apply inv_init; assumption).
-  destruct (HI _ _ Hk) as [H _]. rewrite Ht in H. exact H.
-Qed.
+From Tally Require Import Model.Locks Proof.LocksSysP.
 
 (* ------------------------------------------------------------------ *)
 (* B. soundness of the skeleton checker                                 *)
@@ -263,10 +17,11 @@ Qed.
 Lemma cdisc_app h t1 t2 :
   cdisc h (t1 ++ t2) = match cdisc h t1 with Some h1 => cdisc h1 t2 | None => None end.
 Proof.
-  revert h; induction t1 as [|[m c|m c|] r IH]; intro h; simpl; [reflexivity| | |].
+  revert h; induction t1 as [|[m c|m c| |w c] r IH]; intro h; simpl; [reflexivity| | | |].
   - destruct (forallb _ h); [apply IH|reflexivity].
   - destruct (existsb _ h); [apply IH|reflexivity].
   - destruct h; [apply IH|reflexivity].
+  - destruct (_ || _); [apply IH|reflexivity].
 Qed.
 
 Lemma heldc_eqb_eq a b : heldc_eqb a b = true -> a = b.
@@ -344,6 +99,10 @@ Proof.
   - (* Rel *) unfold inheld in Hc. destruct (existsb _ h) eqn:Hf; [|discriminate]. injection Hc as <- <-.
     exists (remove1 m c h). simpl. rewrite Hf. auto.
   - (* Wait *) destruct h; [|discriminate]. injection Hc as <- <-. exists []. simpl. auto.
+  - (* Use *) unfold inheld in Hc. simpl in Hc.
+    destruct (existsb (fun x => mode_eqb (fst x) W && Nat.eqb (snd x) c) h ||
+              (negb w && existsb (fun x => mode_eqb (fst x) R && Nat.eqb (snd x) c) h)) eqn:Hf; [|discriminate].
+    injection Hc as <- <-. exists h. simpl. rewrite Hf. auto.
   - (* Ret *) injection Hc as <- <-. exists h. simpl. auto.
   - (* SetF *) injection Hc as <- <-. exists h. simpl. auto.
   - (* Unless, skipped *) destruct fl.
@@ -448,6 +207,7 @@ Proof.
   - injection H as <- <- <-. constructor.
   - injection H as <- <- <-. constructor.
   - injection H as <- <- <-. constructor.
+  - injection H as <- <- <-. constructor.
   - destruct fl; [injection H as <- <- <-; constructor|].
     destruct (a_trace procs fuel b false) as [[[t1 o1] f1]|] eqn:E.
     + injection H as <- <- <-. apply EUnlessRun. apply IH. exact E.
@@ -477,38 +237,24 @@ Qed.
 
 (* cls: the class (rank) of a lock instance; a goroutine's operations and their classes *)
 Definition abs_op (cls : nat -> nat) (g : gop) : lop :=
-  match g with GAcq m l => LAcq m (cls l) | GRel m l => LRel m (cls l) | GWait _ => LWait end.
+  match g with
+  | GAcq m l => LAcq m (cls l) | GRel m l => LRel m (cls l) | GWait _ => LWait | GUse w l => LUse w (cls l)
+  end.
 Definition abs_h (cls : nat -> nat) (h : list (mode * nat)) : list (mode * nat) :=
   map (fun x => (fst x, cls (snd x))) h.
 
-(* a goroutine releases only what it holds, in the mode it holds it (the Go runtime aborts
-   the program otherwise: "sync: Unlock of unlocked RWMutex") *)
-Fixpoint relok (h : list (mode * nat)) (g : list gop) : Prop :=
+(* instance consistency: a goroutine releases only what it holds, in the mode it holds it (the Go
+   runtime aborts the program otherwise: "sync: Unlock of unlocked RWMutex"), and the lock of class
+   cls l it holds while it accesses data guarded by l is l itself (the field and the mutex belong to
+   the same object: the translator checks that both are reached through the same expression) *)
+Fixpoint relok_c (cls : nat -> nat) (h : list (mode * nat)) (g : list gop) : Prop :=
   match g with
   | [] => True
-  | GAcq m l :: r => relok ((m, l) :: h) r
-  | GRel m l :: r => In (m, l) h /\ relok (remove1 m l h) r
-  | GWait _ :: r => relok h r
+  | GAcq m l :: r => relok_c cls ((m, l) :: h) r
+  | GRel m l :: r => In (m, l) h /\ relok_c cls (remove1 m l h) r
+  | GWait _ :: r => relok_c cls h r
+  | GUse _ l :: r => (forall x, In x h -> cls (snd x) = cls l -> snd x = l) /\ relok_c cls h r
   end.
-
-Fixpoint hsorted (cls : nat -> nat) (h : list (mode * nat)) : Prop :=
-  match h with
-  | [] => True
-  | x :: r => (forall y, In y r -> cls (snd y) < cls (snd x)) /\ hsorted cls r
-  end.
-
-Lemma remove1_in m l h x : In x (remove1 m l h) -> In x h.
-Proof.
-  induction h as [|y h IH]; simpl; [tauto|].
-  destruct (mode_eqb (fst y) m && Nat.eqb (snd y) l); simpl; intro H; [right; exact H|].
-  destruct H; [left; assumption|right; apply IH; assumption].
-Qed.
-Lemma hsorted_remove1 cls m l h : hsorted cls h -> hsorted cls (remove1 m l h).
-Proof.
-  induction h as [|y h IH]; simpl; [tauto|]. intros [H1 H2].
-  destruct (mode_eqb (fst y) m && Nat.eqb (snd y) l); [exact H2|]. simpl. split; [|apply IH; exact H2].
-  intros z Hz. apply H1. eapply remove1_in; eauto.
-Qed.
 
 Lemma abs_remove1 cls m l h :
   hsorted cls h -> In (m, l) h -> abs_h cls (remove1 m l h) = remove1 m (cls l) (abs_h cls h).
@@ -524,9 +270,21 @@ Proof.
 Qed.
 
 Lemma cdisc_disc cls g : forall h,
-  hsorted cls h -> relok h g -> cdisc (abs_h cls h) (map (abs_op cls) g) = Some [] -> disc cls h g.
+  hsorted cls h -> relok_c cls h g -> cdisc (abs_h cls h) (map (abs_op cls) g) = Some [] -> disc cls h g.
 Proof.
-  induction g as [|[m l|m l|js] r IH]; intros h Hs Hr Hc; simpl in *.
+  induction g as [|[m l|m l|js|w l] r IH]; intros h Hs Hr Hc; simpl in *.
+  5: { (* a guarded access: the class-level guard is the instance itself *)
+    destruct Hr as [Hinst Hr].
+    assert (Hfind : forall m, existsb (fun x => mode_eqb (fst x) m && Nat.eqb (snd x) (cls l)) (abs_h cls h) = true -> In (m, l) h).
+    { intros m He. apply existsb_exists in He as ([m' c'] & Hin & Hb). simpl in Hb.
+      apply andb_true_iff in Hb as [Hm Hc']. apply mode_eqb_eq in Hm. apply Nat.eqb_eq in Hc'. subst.
+      unfold abs_h in Hin. apply in_map_iff in Hin as ([m0 l0] & E & Hin0). simpl in E. injection E as -> Ec.
+      pose proof (Hinst (m, l0) Hin0 Ec) as El. simpl in El. subst l0. exact Hin0. }
+    destruct (existsb (fun x => mode_eqb (fst x) W && Nat.eqb (snd x) (cls l)) (abs_h cls h)) eqn:E1; simpl in Hc.
+    - split; [left; apply Hfind; exact E1|]. apply IH; assumption.
+    - destruct w; simpl in Hc; [discriminate|].
+      destruct (existsb (fun x => mode_eqb (fst x) R && Nat.eqb (snd x) (cls l)) (abs_h cls h)) eqn:E2; [|discriminate].
+      split; [right; split; [reflexivity|apply Hfind; exact E2]|]. apply IH; assumption. }
   - injection Hc as Hc. destruct h; [reflexivity|discriminate].
   - destruct (forallb _ (abs_h cls h)) eqn:Hf; [|discriminate].
     rewrite forallb_forall in Hf.
@@ -571,15 +329,55 @@ Qed.
 Theorem checked_no_deadlock procs fuel (api bg : nat -> Prop) cls gs sched :
   (forall f, api f -> entry_ok procs fuel f = true) ->
   (forall f, bg f -> entry_ok procs fuel f = true /\ has_wait procs fuel (Call f) = false) ->
-  (forall g, In g gs -> relok [] g /\
+  (forall g, In g gs -> relok_c cls [] g /\
      (calls procs api false (map (abs_op cls) g) \/ calls procs bg false (map (abs_op cls) g))) ->
   (forall g js j g', In g gs -> In (GWait js) g -> In j js -> nth_error gs j = Some g' ->
      calls procs bg false (map (abs_op cls) g')) ->
   let s := run (init gs) sched in
-  forall k t, nth_error s k = Some t -> todo t <> [] -> enabled s k = false ->
+  forall k t, nth_error (ths s) k = Some t -> todo t <> [] -> enabled s k = false ->
   exists k', enabled s k' = true.
 Proof.
   intros Hapi Hbg Hg Hw. apply disciplined_no_deadlock with (rk := cls).
+  - intros g Hin. destruct (Hg _ Hin) as [Hr Hc]. apply cdisc_disc; [exact I|exact Hr|]. simpl.
+    destruct Hc as [Hc|Hc].
+    + eapply calls_cdisc; [|exact Hc]. exact Hapi.
+    + eapply calls_cdisc; [|exact Hc]. intros f Hf. apply (Hbg f Hf).
+  - intros g js j g' Hin Hgw Hj Hn. apply (nowait_abs cls).
+    eapply calls_nowait; [|eapply Hw; eauto]. intros f Hf. apply (Hbg f Hf).
+Qed.
+
+Theorem checked_mutual_exclusion procs fuel (api bg : nat -> Prop) cls gs sched :
+  (forall f, api f -> entry_ok procs fuel f = true) ->
+  (forall f, bg f -> entry_ok procs fuel f = true /\ has_wait procs fuel (Call f) = false) ->
+  (forall g, In g gs -> relok_c cls [] g /\
+     (calls procs api false (map (abs_op cls) g) \/ calls procs bg false (map (abs_op cls) g))) ->
+  (forall g js j g', In g gs -> In (GWait js) g -> In j js -> nth_error gs j = Some g' ->
+     calls procs bg false (map (abs_op cls) g')) ->
+  let s := run (init gs) sched in
+  forall l i j u v, nth_error (ths s) i = Some u -> nth_error (ths s) j = Some v ->
+  holds W l u = true -> holds_any l v = true -> i = j.
+Proof.
+  intros Hapi Hbg Hg Hw. apply mutual_exclusion with (rk := cls).
+  - intros g Hin. destruct (Hg _ Hin) as [Hr Hc]. apply cdisc_disc; [exact I|exact Hr|]. simpl.
+    destruct Hc as [Hc|Hc].
+    + eapply calls_cdisc; [|exact Hc]. exact Hapi.
+    + eapply calls_cdisc; [|exact Hc]. intros f Hf. apply (Hbg f Hf).
+  - intros g js j g' Hin Hgw Hj Hn. apply (nowait_abs cls).
+    eapply calls_nowait; [|eapply Hw; eauto]. intros f Hf. apply (Hbg f Hf).
+Qed.
+
+Theorem checked_exclusive_access procs fuel (api bg : nat -> Prop) cls gs sched :
+  (forall f, api f -> entry_ok procs fuel f = true) ->
+  (forall f, bg f -> entry_ok procs fuel f = true /\ has_wait procs fuel (Call f) = false) ->
+  (forall g, In g gs -> relok_c cls [] g /\
+     (calls procs api false (map (abs_op cls) g) \/ calls procs bg false (map (abs_op cls) g))) ->
+  (forall g js j g', In g gs -> In (GWait js) g -> In j js -> nth_error gs j = Some g' ->
+     calls procs bg false (map (abs_op cls) g')) ->
+  let s := run (init gs) sched in
+  forall l i j u v w ru rv, nth_error (ths s) i = Some u -> nth_error (ths s) j = Some v ->
+  todo u = GUse true l :: ru -> todo v = GUse w l :: rv -> i = j.
+Proof.
+  intros Hapi Hbg Hg Hw. apply exclusive_access with (rk := cls).
   - intros g Hin. destruct (Hg _ Hin) as [Hr Hc]. apply cdisc_disc; [exact I|exact Hr|]. simpl.
     destruct Hc as [Hc|Hc].
     + eapply calls_cdisc; [|exact Hc]. exact Hapi.
